@@ -43,9 +43,9 @@ SUITES = {
     },
     "C02": {
         "quick": [("km-cnt", ["cnt_insert__unsplit", "cnt_insert__split", "cnt_insert__split_empty", "cnt_insert__unallocated", "cnt_remove__split"]),
-                  ("km", ["st_lookup__s8_4a", "st_remove__s8_4a", "st_insert__u4f", "st_insert__u4ft", "en_vacant_insert__u4f",
+                  ("km", ["en_vacant_insert__s8t_4a", "st_lookup__s8_4a", "st_remove__s8_4a", "st_insert__u4f", "st_insert__u4ft", "en_vacant_insert__u4f",
                           "en_raw_vacant_hashed__s8_4a", "en_occ_remove__s8_4one", "rt_retain__s8_e"])],
-        "thorough": [("km-cnt", ["cnt_insert__*", "cnt_remove__*"]),
+        "thorough": [("km-cnt", ["cnt_insert__*", "cnt_remove__*", "cnt_vacant_insert__*"]),
                      ("km", ["st_insert__*", "st_lookup__*", "st_remove__*", "en_vacant_insert__*", "en_raw_*", "en_occ_*", "rt_retain__*"])],
     },
     "C03": {
@@ -68,7 +68,7 @@ SUITES = {
     "C05": {
         "quick": [("km", ["st_remove__s8_8g0", "st_remove__s8_8g4", "st_raw_replace_with__s8_8g0", "st_raw_replace_with__s8_8g4",
                           "rt_retain__s8_8g0", "rt_drain_filter__s8_8g0_m1110_end", "rt_drain_filter__s8_4a_m0111_end",
-                          "zst_remove__old", "zst_remove__old2", "zst_retain__old2_drop", "zst_retain__old2_keep", "en_occ_remove__s8_8g4", "en_occ_replace_with__s8_8g0",
+                          "zst_remove__old", "zst_remove__old2", "zst_retain__old2_drop", "zst_retain__old2_keep", "en_occ_remove__s8_8g4", "en_occ_replace_with__s8_8g0", "en_occ_insert__s8_8g4",
                           "it_drain__s8_8g4_j1", "it_into_iter__s8_8g4_j1", "st_insert__s8_8g4"]),
                   ("km-rel", ["st_raw_replace_with__s8_8g0", "st_remove__s8_8g0"]),
                   ("kv", ["kv_reflect_insert_is_not_an_inverse", "kv_replace_bucket_with_restores", "kv_sizing_small"]),
@@ -108,7 +108,7 @@ SUITES = {
     "C12": {
         "quick": [("km", ["en_dispatch__s8_8g0", "en_occ_read__s8_8g0", "en_occ_get_mut__s8_8g0", "en_occ_insert__s8_4a", "en_occ_remove__s8_8g0",
                           "en_occ_replace_entry__s8_8g0", "en_occ_replace_key__s8_8g4", "en_occ_replace_with__s8_8g0", "en_occ_replace_with__s8_4one",
-                          "en_vacant_insert__u4f", "en_vacant_insert__s8_4a", "en_vacant_insert__s4f_e",
+                          "en_vacant_insert__u4f", "en_vacant_insert__s8_4a", "en_vacant_insert__s4f_e", "en_vacant_insert__s8t_4a", "en_occ_insert__s8_8g4",
                           "en_raw_insert__u4f", "en_raw_or_insert__u4f", "en_raw_and_modify__s8_8g0", "en_raw_vacant_hashed__s8_4a", "en_raw_vacant_with_hasher__u4f",
                           "en_raw_occ_misc__s8_8g4", "st_raw_replace_with__s8_8g4"])],
         "thorough": [("km-np", ["st_insert__u4f", "st_insert__s8_4a", "st_insert__s8_8g4", "st_insert__s4f_e", "en_vacant_insert__u4f", "en_vacant_insert__s8_4a", "en_raw_or_insert__u4f", "st_remove__s8_8g0"]), ("km", ["en_*", "st_raw_replace_with__*"])],
@@ -117,12 +117,14 @@ SUITES = {
         "quick": [("km", ["dr_insert__s8_4a", "dr_insert__u4f", "dr_remove__s8_4one", "dr_remove__s8_8g4", "dr_clear_drop__s8_8g4", "dr_clear_drop__s8m0_4a",
                           "dr_retain__s8_8g0", "dr_drain__s8_4a_j1", "dr_drain__s8_4a_end", "dr_drain__s8_4a_j2f", "dr_into_iter__s8_4a_j1", "dr_into_iter__s8_8g4_end",
                           "dr_drain_filter__s8_4a_m1101_j1", "dr_entry_replace_entry__s8_8g0", "dr_entry_replace_key__s8_8g0", "dr_entry_replace_with__s8_8g0", "dr_entry_replace_with__s8_8g4",
-                          "dr_entry_remove__s8_8g4", "dr_clone__s8_4a", "it_into_iter__s8_4a_j1", "dr_reserve__s8_4a", "dr_extend1__s8_4a"])],
+                          "dr_entry_remove__s8_8g4", "dr_clone__s8_4a", "it_into_iter__s8_4a_j1", "dr_reserve__s8_4a", "dr_extend1__s8_4a",
+                          # zero-sized elements: a stale cached iterator makes a later carry take (and drop) an element twice
+                          "zst_retain__old2_drop", "zst_remove__old2"])],
         "thorough": [("km", ["dr_*", "it_into_iter__*"])],
     },
     "C11": {
         "quick": [("km", ["cl_clone__s8_4a", "cl_clone__s8_8g4", "cl_clone__u8_3t", "cl_clone__s8_e", "cl_clone_from__s8_4a__s8_4a", "cl_clone_from__s8_4a__u0",
-                          "cl_clone_from__u8_3t__s8_8g4", "cl_clone_from__s8_8g4__u4f", "cl_clone_from__u0__s8_4a", "cl_clone_from__s8_e__s8_e", "dr_clone__s8_8g4"])],
+                          "cl_clone_from__u8_3t__s8_8g4", "cl_clone_from__s8_8g4__u4f", "cl_clone_from__u0__s8_4a", "cl_clone_from__s8_e__s8_e", "cl_clone_from__s8_4a__u4f", "dr_clone__s8_8g4"])],
         "thorough": [("km", ["cl_*", "dr_clone__*"])],
     },
     "C13": {
@@ -147,8 +149,8 @@ SUITES = {
         "thorough": [("km-serde", ["sd_*"])],
     },
     "C17": {
-        "quick": [("km-rel", ["st_raw_replace_with__s8_8g0", "st_insert__s4f_e", "st_remove__s8_8g0", "cap_try_reserve__s8_e", "zst_remove__old2", "it_drain__s8_4a_j1"]),
-                  ("km", ["st_raw_replace_with__s8_8g0", "st_insert__s4f_e", "st_remove__s8_8g0", "cap_try_reserve__s8_e", "zst_remove__old2", "it_drain__s8_4a_j1"]),
+        "quick": [("km-rel", ["st_raw_replace_with__s8_8g0", "st_insert__s4f_e", "st_remove__s8_8g0", "cap_try_reserve__s8_e", "zst_remove__old2", "it_drain__s8_4a_j1", "cl_clone_from__s8_4a__u4f"]),
+                  ("km", ["st_raw_replace_with__s8_8g0", "st_insert__s4f_e", "st_remove__s8_8g0", "cap_try_reserve__s8_e", "zst_remove__old2", "it_drain__s8_4a_j1", "cl_clone_from__s8_4a__u4f"]),
                   ("km-cnt", ["cnt_try_reserve__split", "cnt_reserve__split", "cnt_insert__split_empty", "cnt_shrink_to__split"]),
                   ("km-cnt-rel", ["cnt_try_reserve__split", "cnt_reserve__split", "cnt_insert__split_empty", "cnt_shrink_to__split"])],
         "thorough": [("km-rel", ["st_*", "cap_*", "zst_*", "rt_retain__*", "en_occ_replace_with__*"]),
